@@ -214,42 +214,71 @@ func c10(e *Env) {
 		evStart
 		evFinish
 	)
-	timeNode := func(sm *core.Sym) *core.Node {
-		if sm == nil || !isCallSym(sm, "time.Now") {
+	// the time.Now() calls a value can come from: one call, or a merge (named results, early returns in an extracted
+	// helper) all of whose arms are such calls. nil = something else.
+	var timeNodes func(sm *core.Sym, depth int) []*core.Node
+	timeNodes = func(sm *core.Sym, depth int) []*core.Node {
+		if sm == nil || depth > 4 {
 			return nil
 		}
+		if sm.Op == "phi" && len(sm.Args) > 0 {
+			var out []*core.Node
+			for _, a := range sm.Args {
+				ns := timeNodes(a, depth+1)
+				if ns == nil {
+					return nil
+				}
+				out = append(out, ns...)
+			}
+			return out
+		}
+		if !isCallSym(sm, "time.Now") {
+			return nil
+		}
+		var out []*core.Node
 		for _, n := range g.Nodes {
 			if v, ok := n.Instr.(ssa.Value); ok && v == sm.Val && n.Ctx.Fn == sm.Fn {
-				return n
+				out = append(out, n)
 			}
 		}
-		return nil
+		return out
 	}
-	var startN, finishN *core.Node
+	var startNs, finishNs []*core.Node
 	var startS, finishS string
 	var startV, finishV ssa.Value
 	for _, u := range need("StartTime") {
-		startN, startS, startV = timeNode(u.val), u.val.String(), u.val.Val
-		if startN == nil {
+		startNs, startS, startV = timeNodes(u.val, 0), u.val.String(), u.val.Val
+		if len(startNs) == 0 {
 			ob("StartTime", "StartTime ← time.Now() taken before the command").Fail(g.Where(u.n), "StartTime is "+startS+", not a time.Now() result")
 		}
 	}
 	for _, u := range need("FinishTime") {
-		finishN, finishS, finishV = timeNode(u.val), u.val.String(), u.val.Val
-		if finishN == nil {
+		finishNs, finishS, finishV = timeNodes(u.val, 0), u.val.String(), u.val.Val
+		if len(finishNs) == 0 {
 			ob("FinishTime", "FinishTime ← time.Now() taken after the command").Fail(g.Where(u.n), "FinishTime is "+finishS+", not a time.Now() result")
 		}
 	}
-	if startN != nil && finishN != nil {
+	if len(startNs) > 0 && len(finishNs) > 0 {
+		isStart, isFinish := map[*core.Node]bool{}, map[*core.Node]bool{}
+		for _, n := range startNs {
+			isStart[n] = true
+		}
+		disjoint := true
+		for _, n := range finishNs {
+			isFinish[n] = true
+			if isStart[n] {
+				disjoint = false
+			}
+		}
 		must := g.Forward(func(n *core.Node) core.Transfer {
 			var b core.Bits
 			if a.isRun(n) {
 				b |= evRun
 			}
-			if n == startN {
+			if isStart[n] {
 				b |= evStart
 			}
-			if n == finishN {
+			if isFinish[n] {
 				b |= evFinish
 			}
 			return core.Transfer{Gen: b}
@@ -260,8 +289,14 @@ func c10(e *Env) {
 				okS = false
 			}
 		}
-		ob("StartTime", "StartTime ← time.Now() taken on all paths before the command").Check(okS && startN != finishN, g.Where(startN), "time.Now() precedes the command", "the start time is not taken before the command on all paths (or equals the finish time)")
-		ob("FinishTime", "FinishTime ← time.Now() taken on all paths after the command").Check(must[finishN]&evRun != 0 && must[finishN]&evStart != 0, g.Where(finishN), "time.Now() follows the command", "the finish time is not taken after the command on all paths")
+		okF := true
+		for _, fn := range finishNs {
+			if must[fn]&evRun == 0 || must[fn]&evStart == 0 {
+				okF = false
+			}
+		}
+		ob("StartTime", "StartTime ← time.Now() taken on all paths before the command").Check(okS && disjoint, g.Where(startNs[0]), "time.Now() precedes the command", "the start time is not taken before the command on all paths (or equals the finish time)")
+		ob("FinishTime", "FinishTime ← time.Now() taken on all paths after the command").Check(okF, g.Where(finishNs[0]), "time.Now() follows the command", "the finish time is not taken after the command on all paths")
 	}
 	for _, u := range need("ExecTimeNS") {
 		okE := isCallSym(u.val, "(time.Time).Sub") && len(u.val.Args) == 2 && u.val.Args[0].Val == finishV && u.val.Args[1].Val == startV && finishV != startV && finishV != nil
@@ -448,11 +483,14 @@ func (e *Env) forAllOutputsLoop(ob *core.Obligation, g *core.XG, action *core.No
 	return false
 }
 
-func (e *Env) c10Tags() {
+// freshTagsMap (C10.R4, shared as C11.R6): a record never shares its Tags map with another record. For C11 this is what
+// keeps the in-memory record of an ancestor equal to the record already on disk: with a shared map a tag added to a
+// descendant appears in the ancestors' records of an uninterrupted run but not in the records a resumed run loads.
+func (e *Env) freshTagsMap(rule string) {
 	r := e.R
 	p := e.P
 	ai := p.Named("scipipe", "AuditInfo")
-	ob := r.Ob("R4", "AuditInfo.Tags:fresh-map-only", "the Tags map of a record is only ever assigned a freshly made map (tags are copied key by key, never shared between records)")
+	ob := r.Ob(rule, "AuditInfo.Tags:fresh-map-only", "the Tags map of a record is only ever assigned a freshly made map (tags are copied key by key, never shared between records)")
 	n := 0
 	for _, fn := range p.LibFuncs {
 		for _, b := range fn.Blocks {
@@ -475,6 +513,11 @@ func (e *Env) c10Tags() {
 	if n == 0 {
 		ob.Unknown("-", "no store to AuditInfo.Tags found")
 	}
+}
+
+func (e *Env) c10Tags() {
+	r := e.R
+	e.freshTagsMap("R4")
 	// task tags from the tags of every in-IP (the task-feeding goroutine)
 	ob2 := r.Ob("R4", "createTasks:task-tags←in-IP tags", "the tags of a task are derived from the tags of every in-IP (complete loops)")
 	closure, gf := e.taskFeeder()
